@@ -31,6 +31,22 @@ def n_final(name) -> int:
     return len(_load(name).final_state)
 
 
+@functools.lru_cache(maxsize=None)
+def same_node_identical_spinful(name) -> bool:
+    """Two identical final-state particles with spin hang on ONE node (eta2 -> rho0 rho0): deep inside the domain of the known
+    finding on identical particles with different helicities; C02 formulates these reactions with complete helicity sets only."""
+    r = _load(name)
+    for t in r.transitions:
+        topo = t.topology
+        for node in topo.nodes:
+            kids = [e for e in topo.get_edge_ids_outgoing_from_node(node) if e in topo.outgoing_edge_ids]
+            if len(kids) == 2:
+                a, b = (t.states[k].particle for k in kids)
+                if a.name == b.name and a.spin > 0:
+                    return True
+    return False
+
+
 def reaction_of(cfg):
     import qrules
 
